@@ -18,10 +18,10 @@ RULE = (
     "truncation- and suffix-faulted variants (warn mode), incl. failed responses of every response-code format, lists of "
     "structures, empty lists and buffers followed by warnings; expected rows: one per structure / primitive / warning, one "
     "per byte buffer with all its bytes standing where its last element was, bit rows for attribute words that are not list "
-    "elements, indentation = path depth, value column = text form; distinct = distinct (type/code, fault, mode, row count) cases"
+    "elements, indentation = path depth, value column = text form; failed responses of 12 response codes of every format and words of every attribute type printed back to back in one process (shuffled, reversed); distinct = distinct (type/code, fault, mode, row count) cases"
 )
 ASSUMPTIONS = [
-    "a non-byte list parent may or may not have its own row",
+    "the row of a non-byte list parent may stand at its position or later; it is required when the list has no element rows",
     "bit rows of response codes are taken from TPM_RC.attributes() (validated independently by C18); bit rows of TPMA_* types from the pinned masks",
 ]
 ANSI = re.compile(r"\x1b\[[0-9;]*m")
